@@ -367,3 +367,138 @@ def ground_tables_all_versions(tier, seed):
 
 GROUND = [Bounded('categories_equal_unicodedata', ground_categories_vs_unicodedata),
           Bounded('tables_all_versions', ground_tables_all_versions)]
+
+
+# ---- bounded stand-in: CharacterClass / UnicodeSubset set algebra against Python sets -------------
+
+def bounded_set_algebra(tier, seed):
+    """All sequences (length <= 2 quick / 3 thorough) of set operations on CharacterClass objects built
+    from small atom sets, compared pointwise on a probe alphabet with Python set semantics; and all
+    UnicodeSubset operator results on subsets of a 7-point universe against frozensets."""
+    import copy
+    import itertools
+    from elementpath.regex import CharacterClass
+    probes = [ord(c) for c in 'ab5 _\n-'] + [0, 0x10FFFF, 0x660, 0x3000]      # incl. non-ASCII digit / space
+    atom_sets = {'a': {ord('a')}, 'b': {ord('b')}, '5': {ord('5')}, ' ': {ord(' ')}}
+    esc = {}
+    for e in (('\\d', '\\s') if tier == 'quick' else ('\\d', '\\s', '\\w')):
+        esc[e] = frozenset(p for p in probes if p in CharacterClass(e))
+        esc[e.upper()] = frozenset(p for p in probes if p not in esc[e])
+    univ = frozenset(probes)
+
+    def atom_view(a):
+        return frozenset(atom_sets[a]) & univ if a in atom_sets else esc[a]
+    atoms = list(atom_sets) + list(esc)
+    fails, n, seen = [], 0, set()
+
+    def view(c):
+        return frozenset(p for p in probes if p in c)
+    maxlen = 2 if tier == 'quick' else 3
+    charsets = [''.join(t) for k in range(1, maxlen + 1) for t in itertools.product(atoms, repeat=k)]
+    for cs in charsets:
+        parts = [cs[i:i + 2] if cs[i] == '\\' else cs[i] for i in range(len(cs)) if not (i and cs[i - 1] == '\\')]
+        want = frozenset().union(*[atom_view(p) for p in parts])
+        c = CharacterClass(cs)
+        n += 1
+        seen.add(('build', tuple(sorted(set(parts)))))
+        if view(c) != want:
+            fails.append({'key': f'build {cs}', 'what': f'CharacterClass({cs!r}) membership on probes differs from the union of its atoms'})
+            continue
+        # complement
+        c1 = CharacterClass(cs)
+        c1.complement()
+        n += 1
+        if view(c1) != univ - want:
+            fails.append({'key': f'complement {cs}', 'what': f'CharacterClass({cs!r}).complement() is not the set complement'})
+        # copy independence
+        c2 = CharacterClass(cs)
+        c3 = copy.copy(c2)
+        c3.add('_')
+        n += 1
+        if c3 is c2 or view(c2) != want:
+            fails.append({'key': f'copy {cs}', 'what': f'copy(CharacterClass({cs!r})) shares state with the original'})
+        for a in atoms:
+            av = atom_view(a)
+            for opname in ('add', 'discard', 'sub'):
+                c4 = CharacterClass(cs)
+                if opname == 'add':
+                    c4.add(a)
+                    w2 = want | av
+                elif opname == 'discard':
+                    c4.discard(a)
+                    w2 = want - av
+                else:
+                    c4 -= CharacterClass(a)
+                    w2 = want - av
+                n += 1
+                seen.add((opname, len(parts), a))
+                if view(c4) != w2 and len(fails) < 60:
+                    fails.append({'key': f'{opname} {cs} {a}', 'what': f'CharacterClass({cs!r}) {opname} {a!r}: membership on probes '
+                                                                    f'{sorted(view(c4))} expected {sorted(w2)}'})
+    # UnicodeSubset operators on all subsets of {0..6} (as canonical lists)
+    from elementpath.regex.unicode_subsets import UnicodeSubset as US
+
+    def mk(bits):
+        s = US()
+        for k in range(7):
+            if bits >> k & 1:
+                s.add(k)
+        return s
+    full = frozenset(range(7))
+    noncanon = []
+    for x in range(128):
+        for y in range(128):
+            fx, fy = frozenset(k for k in range(7) if x >> k & 1), frozenset(k for k in range(7) if y >> k & 1)
+            for opn, f, w in (('|', lambda p, q: p | q, fx | fy), ('-', lambda p, q: p - q, fx - fy),
+                              ('&', lambda p, q: p & q, fx & fy), ('^', lambda p, q: p ^ q, fx ^ fy)):
+                a, b = mk(x), mk(y)
+                r = f(a, b)
+                n += 1
+                if frozenset(r) != w or frozenset(a) != fx:
+                    if len(fails) < 60:
+                        fails.append({'key': f'US {x} {opn} {y}', 'what': f'UnicodeSubset {sorted(fx)} {opn} {sorted(fy)} = {list(r)} '
+                                                                      f'(expected {sorted(w)}, operand unchanged)'})
+                elif not _native_wf_canon(r._codepoints) and not noncanon:
+                    # aggregated: one failure for the whole family (see known_findings.json)
+                    noncanon.append({'key': 'UnicodeSubset operators: result not in canonical form',
+                                     'what': f'UnicodeSubset {sorted(fx)} {opn} {sorted(fy)} is stored as {r._codepoints!r}: '
+                                             'touching items are not merged, so == is not extensional',
+                                     'x': x, 'y': y, 'op': opn})
+        seen.add(('US', x))
+        c = US(mk(x).complement())
+        n += 1
+        if frozenset(k for k in range(7) if k in c) != full - frozenset(k for k in range(7) if x >> k & 1) or \
+                (x % 16 == 5 and len(c) != MAXU - bin(x).count('1')):
+            fails.append({'key': f'US complement {x}', 'what': f'complement of subset bits={x:b} wrong'})
+    fails.extend(noncanon)
+    return {'evaluations': n, 'distinct': len(seen), 'failures': fails, 'n_failures': len(fails),
+            'scope': f'CharacterClass: all charsets of <= {maxlen} atoms over {atoms} x {{build, complement, copy, add, discard, -=}} '
+                     f'x every atom, membership compared on {len(probes)} probe code points; UnicodeSubset: all 128x128 pairs of '
+                     'subsets of {0..6} x {|,-,&,^}, complement; oracle: Python frozensets',
+            'rule': 'distinct = (operation, atom multiset / subset id)'}
+
+
+def _replay_set_algebra(f):
+    """True if the recorded failure no longer fails."""
+    from elementpath.regex.unicode_subsets import UnicodeSubset as US
+    if 'x' not in f:
+        return False
+
+    def mk(bits):
+        s = US()
+        for k in range(7):
+            if bits >> k & 1:
+                s.add(k)
+        return s
+    a, b = mk(f['x']), mk(f['y'])
+    r = {'|': a | b, '-': a - b, '&': a & b, '^': a ^ b}[f['op']]
+    return _native_wf_canon(r._codepoints)
+
+
+BOUNDED = [Bounded('set_algebra_small_universe', bounded_set_algebra, _replay_set_algebra)]
+NOT_DECIDED = [
+    'ground truth of other Unicode versions (UCD files are fetched from the network by install_unicode_data): only '
+    'self-consistency of the bundled tables is checked for versions other than the running one',
+    'CharacterClass methods and UnicodeSubset set operators (|= -= &= ^=, complement, iteration): bounded stand-in only; '
+    'the primitive operations __contains__/add/discard they are built on are proved',
+]
